@@ -251,3 +251,257 @@ for cont in (True, False):
         shutil.rmtree(top)
 sys.exit(1 if bad else 0)
 '''
+
+
+
+def run_unix_time(rep, st, tier):
+    """extension glue of get_unix_time: parses three unsigned 64-bit integers (index, numerator, denominator), hands them to
+    digital_rf_get_unix_time_rational in that order, and returns (year, month, day, hour, minute, second, picosecond) in that order with the
+    picosecond as an unsigned 64-bit value"""
+    try:
+        ir = _ir(); mod = Module(ir)
+    except Exception as e:
+        rep.ob('extension glue: get_unix_time', 'inconclusive', detail=str(e)[:300]); return
+    rep.functions.append('_py_rf_write_hdf5_get_unix_time (extension)')
+    K, N, D = z3.Ints('ext_k ext_n ext_d')
+    outv = [z3.Int('ut_%s' % nm) for nm in ('year', 'month', 'day', 'hour', 'minute', 'second', 'ps')]
+    res = []
+
+    def setup(ex):
+        ex.assume(z3.And(K >= 0, K < 2**63, N >= 1, N < 2**32, D >= 1, D <= 10**9))
+        ex.user['pyargs'] = [K, N, D]
+        return [NULL, Ptr(ex.new_region('args'))]
+
+    def on_path(ex, status, ret):
+        calls = [e for e in ex.events if e[0] == 'lib']
+        rets = [e for e in ex.events if e[0] == 'ret']
+        ok = status == 'ret' and ex.user.get('fmt') == 'KKK' and len(calls) == 1
+        if ok:
+            a = calls[0][2]
+            ok = ex.valid(z3.And(a[0] == K, a[1] == N, a[2] == D))
+            if calls[0][3]:
+                ok = ok and len(rets) == 1 and rets[0][1] == 'iiiiiiK' and len(rets[0][2]) == 7 and all(ex.valid(x == y) for x, y in zip(rets[0][2], outv))
+            else:
+                ok = ok and not rets and (ret is NULL or (isinstance(ret, Ptr) and ret.region is None))
+        res.append(ok)
+
+    S = _stubs(None)
+    def utr(ex, k, n, d, *outs):
+        okc = ex.decide(z3.Bool('utr_ok'))
+        if okc:
+            for o, v in zip(outs, outv): ex.store(o, v)
+        ex.events.append(('lib', 'digital_rf_get_unix_time_rational', (k, n, d), okc, None))
+        return 0 if okc else 2**32 - 1
+    S['@digital_rf_get_unix_time_rational'] = utr
+    ex = Exec(mod, S, {}, timeout_ms=4000, fallback_ms=60000)
+    try:
+        ex.explore('@_py_rf_write_hdf5_get_unix_time', setup, on_path)
+    except Inconclusive as e:
+        rep.ob('extension glue: get_unix_time', 'inconclusive', detail=str(e)[:300]); return
+    name = 'extension glue: get_unix_time parses (index, numerator, denominator) as unsigned 64-bit, passes them in order, returns (year, month, day, hour, minute, second, picosecond) in order, picosecond unsigned 64-bit'
+    if res and all(res) and len(res) >= 2:
+        rep.ob(name, 'discharged', 'all index / rate values; both library outcomes', ex.nq, ex.tq, len(res))
+    else:
+        rep.violation(name, 'EXT.get_unix_time', 'argument / result wiring of the extension differs (%d of %d paths)' % (res.count(False), len(res)), replay_body=REPLAY_UT, bounds='all values')
+
+
+REPLAY_UT = '''
+from vlib import build
+import datetime, sys
+drf = build.load_pkg()
+from digital_rf import _py_rf_write_hdf5 as ext
+bad = 0
+for (k, n, d) in [(0, 1, 1), (1700000000 * 200 // 3 + 1, 200, 3), (2**62, 4294967291, 1), (123456789012345, 1000000, 3), (86400 * 366 * 30 * 7 + 5, 7, 1), (951782400 * 10 + 7, 10, 1)]:
+    sec = k * d // n; ps = ((k * d) % n) * 10**12 // n
+    t = datetime.datetime(1970, 1, 1) + datetime.timedelta(seconds=sec)
+    want = (t.year, t.month, t.day, t.hour, t.minute, t.second, ps)
+    got = tuple(ext.get_unix_time(k, n, d))
+    if got != want: print('get_unix_time%s -> %s, expected %s' % ((k, n, d), got, want)); bad = 1
+    dt, ps2 = drf.get_unix_time(k, n, d)
+    if (dt.year, dt.month, dt.day, dt.hour, dt.minute, dt.second, dt.microsecond, ps2) != want[:6] + (ps // 10**6, ps):
+        print('digital_rf.get_unix_time%s -> %s %s' % ((k, n, d), dt, ps2)); bad = 1
+sys.exit(1 if bad else 0)
+'''
+
+
+
+def run_init(rep, st, tier):
+    """extension glue of init: the 16 documented arguments are parsed with the documented widths and handed to digital_rf_create_write_hdf5
+    in the documented order (cadences, start index, rate, uuid, compression, checksum, complex, sub-channels, continuous, marching)"""
+    try:
+        ir = _ir(); mod = Module(ir)
+    except Exception as e:
+        rep.ob('extension glue: init', 'inconclusive', detail=str(e)[:300]); return
+    rep.functions.append('_py_rf_write_hdf5_init (extension)')
+    names = ['bytecount', 'sc', 'fc', 'start', 'n', 'd', 'comp', 'checksum', 'cplx', 'nsub', 'cont', 'march']
+    V = {k: z3.Int('init_' + k) for k in names}
+    res = []
+
+    def setup(ex):
+        for k, v in V.items(): ex.assume(z3.And(v >= 0, v < 2**31))
+        def sreg(txt):
+            r = ex.new_region('s_' + txt); ex.mem[r]['cells'][()] = SymStr([txt]); return Ptr(r, (0,))
+        ex.user['strs'] = dict(directory=sreg('/data/drf/ch'), byteorder=sreg('little'), dtype=sreg('i'), uuid=sreg('UUID'))
+        st_ = ex.user['strs']
+        ex.user['pyargs'] = [st_['directory'], st_['byteorder'], st_['dtype'], V['bytecount'], V['sc'], V['fc'], V['start'], V['n'], V['d'], st_['uuid'],
+                             V['comp'], V['checksum'], V['cplx'], V['nsub'], V['cont'], V['march']]
+        ex.summaries['@get_hdf5_data_type'] = lambda e, bo, dc, bc: (e.events.append(('dtype', bo, dc, bc)), z3.Int('hdf5_dtype'))[1]
+        return [NULL, Ptr(ex.new_region('args'))]
+
+    def on_path(ex, status, ret):
+        calls = [e for e in ex.events if e[0] == 'lib']
+        if status != 'ret': res.append(False); return
+        if ex.user.get('fmt') != 'sssiKKKKKsiiiiii': res.append(False); return
+        if not calls: res.append(True); return          # datatype not found: refused before the library is called
+        a = calls[0][2]; st_ = ex.user['strs']
+        want = [st_['directory'], z3.Int('hdf5_dtype'), V['sc'], V['fc'], V['start'], V['n'], V['d'], st_['uuid'], V['comp'], V['checksum'], V['cplx'], V['nsub'], V['cont'], V['march']]
+        ok = len(a) == 14
+        for x, y in zip(a, want):
+            if isinstance(y, Ptr): ok = ok and isinstance(x, Ptr) and x.region == y.region
+            else: ok = ok and not isinstance(x, Ptr) and ex.valid(x == y)
+        dt = [e for e in ex.events if e[0] == 'dtype']
+        ok = ok and len(dt) == 1 and ex.valid(dt[0][3] == V['bytecount'])
+        res.append(bool(ok))
+
+    S = _stubs(None)
+    def create(ex, *a):
+        okc = ex.decide(z3.Bool('create_ok'))
+        ex.events.append(('lib', 'digital_rf_create_write_hdf5', a, okc, None))
+        return Ptr(ex.new_region('wobj')) if okc else NULL
+    S['@digital_rf_create_write_hdf5'] = create
+    S['@PyCapsule_New'] = lambda ex, p_, nm, destr: Ptr(ex.new_region('capsule'))
+    ex = Exec(mod, S, {}, timeout_ms=4000, fallback_ms=60000)
+    try:
+        ex.explore('@_py_rf_write_hdf5_init', setup, on_path)
+    except (Inconclusive, AssertFail) as e:
+        rep.ob('extension glue: init', 'inconclusive', detail=str(e)[:300]); return
+    name = 'extension glue: init parses its 16 arguments with the documented widths and hands them to digital_rf_create_write_hdf5 in the documented order'
+    if res and all(res) and len(res) >= 2:
+        rep.ob(name, 'discharged', 'all numeric argument values', ex.nq, ex.tq, len(res))
+    else:
+        rep.violation(name, 'EXT.init', 'argument wiring of the extension constructor differs (%d of %d paths)' % (res.count(False), len(res)), replay_body=REPLAY_INIT, bounds='all values')
+
+
+REPLAY_INIT = '''
+from vlib import build
+import numpy as np, tempfile, os, shutil, sys, h5py, glob, warnings
+warnings.simplefilter('ignore')
+drf = build.load_pkg()
+bad = 0
+top = tempfile.mkdtemp(); os.makedirs(top + '/ch')
+S = 10**10 + 7
+w = drf.DigitalRFWriter(top + '/ch', 'i2', 7200, 400, S, 200, 3, 'my-uuid', compression_level=1, checksum=True, is_complex=True, num_subchannels=2, is_continuous=False, marching_periods=False)
+w.rf_write(np.zeros((10, 2), dtype=[('r', 'i2'), ('i', 'i2')]))
+w.close()
+f = sorted(glob.glob(top + '/ch/*/rf@*.h5'))[0]
+with h5py.File(f, 'r') as h:
+    a = {k: (v.decode() if isinstance(v, bytes) else (v.item() if hasattr(v, 'item') else v)) for k, v in h['rf_data'].attrs.items()}
+want = dict(subdir_cadence_secs=7200, file_cadence_millisecs=400, sample_rate_numerator=200, sample_rate_denominator=3, is_complex=1, num_subchannels=2, is_continuous=0, uuid_str='my-uuid')
+for k, v in want.items():
+    if a.get(k) != v: print('attribute', k, '=', a.get(k), 'expected', v); bad = 1
+if int(a.get('init_utc_timestamp', -1)) != S * 3 // 200: print('init_utc_timestamp', a.get('init_utc_timestamp')); bad = 1
+shutil.rmtree(top)
+sys.exit(1 if bad else 0)
+'''
+
+
+
+def run_py_init_call(rep):
+    """DigitalRFWriter.__init__ -> extension init: the argument expressions of the call, read from the AST, name the documented parameters in the
+    documented order (a syntactic obligation: each argument expression must be one of the accepted spellings of that parameter)"""
+    import ast, os
+    src = open(os.path.join(build.PYPKG, 'digital_rf_hdf5.py')).read()
+    tree = ast.parse(src)
+    cls = next((n for n in tree.body if isinstance(n, ast.ClassDef) and n.name == 'DigitalRFWriter'), None)
+    call = None
+    for n in ast.walk(cls) if cls else []:
+        if isinstance(n, ast.Call) and ast.unparse(n.func) == '_py_rf_write_hdf5.init': call = n
+    name = 'DigitalRFWriter.__init__ hands the extension (directory, byte order, type kind, item size, subdir cadence, file cadence, start index, numerator, denominator, uuid, compression, checksum, complex, sub-channels, continuous, marching) in this order'
+    if call is None:
+        rep.ob(name, 'inconclusive', detail='call of _py_rf_write_hdf5.init not found'); return
+    want = [('directory',), ('byteorder',), ('kind',), ('itemsize',), ('subdir_cadence_secs',), ('file_cadence_millisecs',), ('start_global_index',),
+            ('sample_rate_numerator',), ('sample_rate_denominator',), ('uuid_str',), ('compression_level',), ('checksum',), ('is_complex',),
+            ('num_subchannels',), ('is_continuous',), ('marching_periods',)]
+    got = [ast.unparse(a) for a in call.args]
+    ok = len(got) == len(want) and not call.keywords and all(any(w in g for w in ws) for g, ws in zip(got, want))
+    if ok: rep.ob(name, 'discharged', 'syntactic (AST of the call)', 0, 0, 1, sample={'arguments': got})
+    else: rep.violation(name, 'EXT.py_init_call', 'arguments of the call: %s' % (got,), replay_body=REPLAY_INIT)
+
+
+
+def run_dtype(rep, st, tier):
+    """extension: get_hdf5_data_type maps (byte order, numpy kind, item size) to the HDF5 type of exactly that class, size, sign and byte order,
+    and to -1 for everything else (all 2^21 argument triples, decided per path)"""
+    try:
+        ir = _ir(); mod = Module(ir)
+    except Exception as e:
+        rep.ob('extension: element type table', 'inconclusive', detail=str(e)[:300]); return
+    rep.functions.append('get_hdf5_data_type (extension)')
+    bo, dc, bc = z3.Ints('dt_order dt_kind dt_size')
+    def cond(o, k, sz=None):
+        c = [dc == ord(k)]
+        if o is not None: c.append(bo == ord(o))
+        else: c.append(z3.And(bo != ord('<'), bo != ord('>')))
+        if sz is not None: c.append(bc == sz)
+        return z3.And(*c)
+    table = {}
+    for o, suf in (('<', 'LE'), ('>', 'BE')):
+        table['H5T_IEEE_F32' + suf] = [cond(o, 'f', 4)]
+        table['H5T_IEEE_F64' + suf] = [cond(o, 'f', 8), cond(o, 'd')]
+        for sz in (1, 2, 4, 8):
+            table['H5T_STD_I%d%s' % (8 * sz, suf)] = [cond(o, 'i', sz)]
+            table['H5T_STD_U%d%s' % (8 * sz, suf)] = [cond(o, 'u', sz)]
+    # byte order not applicable ('|', '='): numpy uses it for one-byte items
+    table['H5T_STD_I8LE'].append(cond(None, 'i')); table['H5T_STD_U8LE'].append(cond(None, 'u'))
+    supported = z3.Or(*[c for cs in table.values() for c in cs])
+    res = []; seen = set()
+
+    def setup(ex):
+        ex.assume(z3.And(bo >= 0, bo < 128, dc >= 0, dc < 128, bc >= -2**31, bc < 2**31))
+        return [bo, dc, bc]
+
+    def on_path(ex, status, ret):
+        if status != 'ret': res.append(('abort', False)); return
+        txt = str(ret)
+        m = re.search(r'@(H5T_\w+?)_g', txt)
+        if m:
+            nm = m.group(1); seen.add(nm)
+            res.append((nm, nm in table and ex.valid(z3.Or(*table[nm]))))
+        else:
+            res.append(('-1', ex.valid(z3.Not(supported)) and (isinstance(ret, int) and ret in (2**64 - 1, -1) or ex.valid(ret == 2**64 - 1))))
+
+    ex = Exec(mod, envstubs.mk_stubs(), {}, timeout_ms=4000, fallback_ms=60000)
+    try:
+        ex.explore('@get_hdf5_data_type', setup, on_path)
+    except (Inconclusive, AssertFail) as e:
+        rep.ob('extension: element type table', 'inconclusive', detail=str(e)[:300]); return
+    name = 'extension: (byte order, kind, item size) -> HDF5 type of exactly that class / size / sign / byte order; unsupported combinations refused'
+    bad = [r_ for r_ in res if not r_[1]]
+    if not bad and len(seen) == len(table):
+        rep.ob(name, 'discharged', 'all byte-order / kind characters and item sizes', ex.nq, ex.tq, len(res), sample={'types': sorted(seen)})
+    elif bad:
+        rep.violation(name, 'EXT.dtype_table', 'wrong or missing mapping on paths returning %s' % sorted(set(r_[0] for r_ in bad))[:6], replay_body=REPLAY_DTYPE)
+    else:
+        rep.ob(name, 'inconclusive', detail='types never returned: %s' % sorted(set(table) - seen))
+
+
+REPLAY_DTYPE = '''
+from vlib import build
+import numpy as np, tempfile, os, shutil, sys, h5py, glob, warnings
+warnings.simplefilter('ignore')
+drf = build.load_pkg()
+bad = 0
+for dt in ('<i1', '<i2', '<i4', '<i8', '<u1', '<u2', '<u4', '<u8', '<f4', '<f8', '>i2', '>i4', '>i8', '>u2', '>u4', '>u8', '>f4', '>f8', 'i1', 'u1'):
+    top = tempfile.mkdtemp(); os.makedirs(top + '/ch')
+    try:
+        w = drf.DigitalRFWriter(top + '/ch', dt, 3600, 1000, 10**10, 10, 1, 'u', is_complex=False, marching_periods=False)
+        w.rf_write(np.arange(5).astype(dt)); w.close()
+        f = glob.glob(top + '/ch/*/rf@*.h5')[0]
+        with h5py.File(f, 'r') as h: got = h['rf_data'].dtype
+        if got != np.dtype(dt) or got.byteorder.replace('=', '<') != np.dtype(dt).byteorder.replace('=', '<'):
+            print('requested', np.dtype(dt).str, 'stored as', got.str); bad = 1
+    except Exception as e:
+        print(dt, type(e).__name__, e); bad = 1
+    shutil.rmtree(top)
+sys.exit(1 if bad else 0)
+'''
